@@ -78,7 +78,7 @@ type c06Pool struct {
 
 func newC06Pool(per int) *c06Pool {
 	p := &c06Pool{envs: map[string]chan *sfEnv{}}
-	for _, l := range []string{"minus", "plus", "none"} {
+	for _, l := range []string{"minus", "plus", "none", "minus/af", "plus/af"} {
 		for _, pa := range []bool{false, true} {
 			ch := make(chan *sfEnv, per)
 			for i := 0; i < per; i++ {
@@ -100,10 +100,10 @@ func (p *c06Pool) with(lit string, preauth bool, f func(env *sfEnv) sfObs) sfObs
 	return o
 }
 
-// fields: lit preauth cut delivered trace end calls closes panics drained maxArg
+// fields: lit preauth cut delivered trace end calls closes panics drained maxArg idleLeft
 func c06Fields(lit string, preauth bool, cut int, o sfObs) []string {
 	return []string{lit, b01(preauth), strconv.Itoa(cut), hx(o.delivered), o.trace, o.end, o.calls,
-		strconv.Itoa(o.closes), strconv.Itoa(o.panics), b01(o.drained), strconv.Itoa(o.maxArg)}
+		strconv.Itoa(o.closes), strconv.Itoa(o.panics), b01(o.drained), strconv.Itoa(o.maxArg), strconv.Itoa(o.idleLeft)}
 }
 
 func c06Mutate(r *rng, b []byte) []byte {
@@ -260,6 +260,9 @@ func genC06(e *emitter, tier string, seed uint64) {
 	parCases(e, n, func(i int) []caseLine {
 		g := &sfGen{r: &rng{s: seeds[i]}}
 		lit := lits[g.r.intn(3)]
+		if lit != "none" && g.r.chance(1, 6) {
+			lit += "/af"
+		}
 		preauth := g.r.chance(1, 3)
 		kind := "gen"
 		var cmds []sfCmd
